@@ -9,10 +9,10 @@ Lemma gen_root_leaf_spec_noratio : forall (st : Style XQ) (measure : MeasureFn X
   fin_style st -> size_all fin_avail av -> fin_measure measure -> nonneg_padding_border st av ->
   display st <> DNone -> aspect_ratio st = None ->
   exists lay aa,
-    gen_root_leaf st measure av = Some (lay, [(size_NONE, aa)]) /\
+    gen_root_gen_leaf st measure av = Some (lay, [(size_NONE, aa)]) /\
     size_rel avail_xeq aa (leaf_spec_measure_avail st av) /\
     layout_xeq lay (leaf_spec st av (measure size_NONE aa)).
-Proof. intros. rewrite gen_root_leaf_is_model. apply root_leaf_spec_noratio; assumption. Qed.
+Proof. intros. rewrite gen_root_gen_leaf_is_model. apply root_leaf_spec_noratio; assumption. Qed.
 
 Lemma gen_leaf_floor : forall (inputs : LayoutInput XQ) (st : Style XQ) (measure : MeasureFn XQ) out calls pbw pbh,
   gen_compute_leaf_layout inputs st measure = Some (out, calls) ->
@@ -32,7 +32,7 @@ Proof. intros until calls. rewrite gen_leaf_is_model. apply leaf_measure_args. Q
 
 (* non-vacuity: the example of C19_example_premises / _result, computed with the translated routine *)
 Lemma gen_example_result :
-  exists lay aa, gen_root_leaf ex_style ex_measure ex_avail = Some (lay, [(size_NONE, aa)]) /\
+  exists lay aa, gen_root_gen_leaf ex_style ex_measure ex_avail = Some (lay, [(size_NONE, aa)]) /\
     size_rel xeq (l_size lay) (mkSize (Fin 170) (Fin 62)) /\ avail_xeq (width aa) (Definite (Fin 136)) /\
     size_rel xeq (l_content_size lay) (mkSize (Fin 156) (Fin 27)).
 Proof.
